@@ -1,48 +1,16 @@
+import NomtModel.Store.WalkerSimMoves
 import NomtModel.Store.WalkerSim
+import NomtModel.Store.WalkerGSim
 /-!
 # `handle_elision_threshold`, `up`, `down` of the mirror against the tree walker
 -/
-namespace Nomt.Walker
+namespace Nomt.Walker.G
 open Nomt Nomt.TriePos
 open Nomt.Wal (PageDiff)
 
 variable {Node VH : Type} [DecidableEq Node] [DecidableEq VH] (H : Hasher Node VH)
 
-/-- `count_leaves` reads the node slots only -/
-theorem countFrom_nodes (pg pg' : Page Node) (h : pg'.nodes = pg.nodes) :
-    ∀ rem idx, countFrom H pg' rem idx = countFrom H pg rem idx := by
-  intro rem
-  induction rem with
-  | zero => intro idx; rfl
-  | succ rem ih =>
-    intro idx
-    simp only [countFrom, h, ih]
-
-theorem countLeaves_nodes (pg pg' : Page Node) (h : pg'.nodes = pg.nodes) : countLeaves H pg' = countLeaves H pg := by
-  unfold countLeaves; rw [countFrom_nodes H pg pg' h, countFrom_nodes H pg pg' h]
-
 /-! ## `handle_elision_threshold` never fails on a well-formed stack -/
-
-theorem pushOut_ok (w : Walker Node) (sp : StackPage Node) (hrec : w.reconstruction = false) :
-    pushOut w sp = .ok (pushUpdated w sp) := by
-  unfold pushOut; rw [hrec]; rfl
-
-theorem childIndexAtLevel_last (P : PageId) (h : P ≠ []) : ∃ ci, childIndexAtLevel P (P.length - 1) = some ci := by
-  unfold childIndexAtLevel
-  have : P.length - 1 < P.length := by
-    have : 1 ≤ P.length := List.length_pos_iff.mpr h
-    omega
-  exact ⟨P[P.length - 1], List.getElem?_eq_getElem this⟩
-
-theorem storeElided_nodes (sp : StackPage Node) : (storeElided sp).page.nodes = sp.page.nodes := by
-  unfold storeElided; split <;> rfl
-
-theorem totalDiff_changed (sp : StackPage Node) (i : Nat) (h : sp.diff.changed i = true) :
-    sp.totalDiff.changed i = true := by
-  unfold StackPage.totalDiff
-  cases sp.reconDiff with
-  | none => exact h
-  | some d => simp only; rw [PageDiff.changed_join, h]; simp
 
 theorem pushUpdated_outs (w0 w1 : Walker Node) (sp sp2 : StackPage Node) (hout : w1.outputPages = w0.outputPages)
     (hid : sp2.pageId = sp.pageId) (hn : sp2.page.nodes = sp.page.nodes)
@@ -61,38 +29,43 @@ theorem pushUpdated_outs (w0 w1 : Walker Node) (sp sp2 : StackPage Node) (hout :
     · exact hdf i hi
     · exact totalDiff_changed sp2 i (hdf i hi)
 
-theorem storeElided_diff (sp : StackPage Node) : (storeElided sp).diff = sp.diff := by
-  unfold storeElided; split <;> rfl
-
-theorem storeElided_fields (sp : StackPage Node) :
-    (storeElided sp).pageId = sp.pageId ∧ (storeElided sp).childrenLeaves = sp.childrenLeaves ∧
-    (storeElided sp).prevChildrenLeaves = sp.prevChildrenLeaves ∧ (storeElided sp).pageLeaves = sp.pageLeaves := by
-  unfold storeElided; split <;> exact ⟨rfl, rfl, rfl, rfl⟩
-
-/-- the parent's counter update cannot fail when the popped page carries fresh-page counters -/
-theorem elideParentCounter_ok (sp parent : StackPage Node) (plc clc : Nat)
-    (hsp : sp.prevChildrenLeaves = some 0 ∧ sp.pageLeaves = some 0) (hcp : CountersOK parent) :
-    ∃ parent2, elideParentCounter sp parent plc clc = .ok parent2 ∧ parent2.pageId = parent.pageId ∧
-      parent2.page = parent.page ∧ CountersOK parent2 ∧ parent2.diff = parent.diff := by
+/-- the parent's counter update: it succeeds, or the one guard traps -/
+theorem elideParentCounter_cases (sp parent : StackPage Node) (plc clc : Nat)
+    (hsp : sp.prevChildrenLeaves.isSome = true) (hcp : CountersOK parent) :
+    (∃ parent2, elideParentCounter sp parent plc clc = .ok parent2 ∧ parent2.pageId = parent.pageId ∧
+      parent2.page = parent.page ∧ CountersOK parent2 ∧ parent2.diff = parent.diff) ∨
+    elideParentCounter sp parent plc clc = .panic GUARD := by
   unfold elideParentCounter
   cases hpo : parent.childrenLeaves.or parent.prevChildrenLeaves with
-  | none => exact ⟨parent, rfl, rfl, rfl, hcp, rfl⟩
+  | none => exact Or.inl ⟨parent, rfl, rfl, rfl, hcp, rfl⟩
   | some pclc =>
     simp only
-    rw [hsp.1, hsp.2]
-    simp only [Option.getD_some]
-    rw [if_neg (by omega)]
-    refine ⟨_, rfl, rfl, rfl, ?_, rfl⟩
-    rcases hcp with ⟨h1, h2⟩ | h
-    · rw [h1, h2] at hpo; cases hpo
-    · exact Or.inr h
+    cases hpv : sp.prevChildrenLeaves with
+    | none => rw [hpv] at hsp; cases hsp
+    | some prevClc =>
+      simp only
+      split
+      · exact Or.inr rfl
+      · refine Or.inl ⟨_, rfl, rfl, rfl, ?_, rfl⟩
+        intro _
+        show parent.prevChildrenLeaves.isSome = true
+        cases hpp : parent.prevChildrenLeaves with
+        | some x => rfl
+        | none =>
+          rw [hpp] at hpo
+          have : parent.childrenLeaves.isSome = true := by
+            cases hcl : parent.childrenLeaves with
+            | none => rw [hcl] at hpo; cases hpo
+            | some y => rfl
+          have := hcp this
+          rw [hpp] at this; cases this
 
 /-- the effect of `handle_elision_threshold` on the stack: the top page is popped; of the pages below only the counters and
-the bitfield of the next one may change -/
+the bitfield of the next one may change — or the guard of the counter arithmetic traps -/
 theorem handleElision_spec (w : Walker Node) (sp : StackPage Node) (below : List (StackPage Node))
     (hst : w.stack = sp :: below) (hrec : w.reconstruction = false)
     (hc : ∀ x ∈ w.stack, CountersOK x) (hne : below ≠ [] → sp.pageId ≠ []) :
-    ∃ w', w.handleElision H = .ok w' ∧ Same w w' ∧ w'.position = w.position ∧ w'.root = w.root ∧
+    (∃ w', w.handleElision H = .ok w' ∧ Same w w' ∧ w'.position = w.position ∧ w'.root = w.root ∧
       w'.childPageRoots = w.childPageRoots ∧
       (∀ o ∈ w'.outputPages, o ∈ w.outputPages ∨
         ∃ pg d b, pg.nodes = sp.page.nodes ∧ o = .updated sp.pageId pg d b ∧
@@ -100,17 +73,20 @@ theorem handleElision_spec (w : Walker Node) (sp : StackPage Node) (below : List
       ((below = [] ∧ w'.stack = []) ∨
        (∃ parent rest parent', below = parent :: rest ∧ w'.stack = parent' :: rest ∧
           parent'.pageId = parent.pageId ∧ parent'.page = parent.page ∧ CountersOK parent' ∧
-          parent'.diff = parent.diff)) := by
+          parent'.diff = parent.diff))) ∨
+    w.handleElision H = .panic GUARD := by
   unfold Walker.handleElision
   rw [hst]
   simp only
   obtain ⟨hid, hcl, hpcl, hpl⟩ := storeElided_fields sp
   have hcsp : CountersOK sp := hc sp (by rw [hst]; simp)
+  have hnone : CountersOK ({ sp with childrenLeaves := none, prevChildrenLeaves := none } : StackPage Node) := by
+    intro h; cases h
   cases below with
   | nil =>
     simp only
     rw [pushOut_ok _ _ (by exact hrec)]
-    exact ⟨_, rfl, Same.rfl' _, rfl, rfl, rfl,
+    exact Or.inl ⟨_, rfl, Same.rfl' _, rfl, rfl, rfl,
       pushUpdated_outs w _ sp _ rfl hid (storeElided_nodes sp) (by intro i hi; rw [storeElided_diff]; exact hi), Or.inl ⟨trivial, rfl⟩⟩
   | cons parent rest =>
     simp only
@@ -130,82 +106,56 @@ theorem handleElision_spec (w : Walker Node) (sp : StackPage Node) (below : List
       rw [pushOut_ok _ _ (by exact hrec)]
       refine ⟨_, rfl, Same.rfl' _, rfl, rfl, rfl, pushUpdated_outs w _ sp _ rfl hid (storeElided_nodes sp) (by intro i hi; rw [storeElided_diff]; exact hi),
         _, rfl, rfl, rfl, ?_, rfl⟩
-      rcases hcp with ⟨h1, _⟩ | ⟨h1, h2⟩
-      · left; refine ⟨?_, rfl⟩
-        show (if w.mutStalePrev = true then parent.prevChildrenLeaves else none) = none
-        rw [h1]; split <;> rfl
-      · by_cases hm : w.mutStalePrev = true
-        · right; refine ⟨?_, h2⟩
-          show (if w.mutStalePrev = true then parent.prevChildrenLeaves else none) = some 0
-          rw [if_pos hm]; exact h1
-        · left; refine ⟨?_, rfl⟩
-          show (if w.mutStalePrev = true then parent.prevChildrenLeaves else none) = none
-          rw [if_neg hm]
+      intro h; cases h
     by_cases hroot : parentPageId (storeElided sp).pageId = []
     · rw [if_pos hroot, pushOut_ok _ _ (by exact hrec)]
-      exact ⟨_, rfl, Same.rfl' _, rfl, rfl, rfl, pushUpdated_outs w _ sp _ rfl hid (storeElided_nodes sp) (by intro i hi; rw [storeElided_diff]; exact hi),
+      exact Or.inl ⟨_, rfl, Same.rfl' _, rfl, rfl, rfl, pushUpdated_outs w _ sp _ rfl hid (storeElided_nodes sp) (by intro i hi; rw [storeElided_diff]; exact hi),
         Or.inr ⟨parent, rest, parent, rfl, rfl, rfl, rfl, hcp, rfl⟩⟩
     · rw [if_neg hroot]
       cases hor : (storeElided sp).childrenLeaves.or (storeElided sp).prevChildrenLeaves with
       | none =>
         simp only
         obtain ⟨w', h1, h2, h3, h4, h5, ho, p', h6, h7, h8, h9, h10⟩ := hkeep
-        exact ⟨w', h1, h2, h3, h4, h5, ho, Or.inr ⟨parent, rest, p', rfl, h6, h7, h8, h9, h10⟩⟩
+        exact Or.inl ⟨w', h1, h2, h3, h4, h5, ho, Or.inr ⟨parent, rest, p', rfl, h6, h7, h8, h9, h10⟩⟩
       | some clc =>
         simp only
         split
         · -- the page is elided
-          have hsp2 : (storeElided sp).prevChildrenLeaves = some 0 ∧ (storeElided sp).pageLeaves = some 0 := by
-            rw [hpcl, hpl]
-            rcases hcsp with ⟨h1, h2⟩ | h
-            · rw [hcl, hpcl, h1, h2] at hor; cases hor
-            · exact h
-          obtain ⟨parent2, hp2, hp2id, hp2pg, hp2c, hp2d⟩ :=
-            elideParentCounter_ok (storeElided sp) parent (countLeaves H (storeElided sp).page) clc hsp2 hcp
-          unfold elidePage
-          rw [hp2]
-          simp only
-          rw [hci]
-          simp only
-          rw [hrec]
-          simp only [Bool.false_eq_true, if_false]
-          have hc3 : CountersOK ({ parent2 with elided := PageLayout.elidedSet parent2.elided ci true } : StackPage Node) := by
-            rcases hp2c with h | h
-            · exact Or.inl h
-            · exact Or.inr h
-          split
-          · exact ⟨_, rfl, ⟨rfl, rfl, rfl, rfl, hrec.symm⟩, rfl, rfl, rfl,
-              pushUpdated_outs w _ sp _ rfl hid (storeElided_nodes sp) (by intro i hi; show ((storeElided sp).diff.setCleared).changed i = true; rw [PageDiff.changed_setCleared, storeElided_diff, hi]; rfl),
-              Or.inr ⟨parent, rest, _, rfl, rfl, hp2id, hp2pg, hc3, hp2d⟩⟩
-          · exact ⟨_, rfl, ⟨rfl, rfl, rfl, rfl, hrec.symm⟩, rfl, rfl, rfl, fun o ho => Or.inl ho,
-              Or.inr ⟨parent, rest, _, rfl, rfl, hp2id, hp2pg, hc3, hp2d⟩⟩
+          have hsp2 : (storeElided sp).prevChildrenLeaves.isSome = true := by
+            rw [hpcl]
+            cases hpv : sp.prevChildrenLeaves with
+            | some x => rfl
+            | none =>
+              rw [hcl, hpcl, hpv] at hor
+              have : sp.childrenLeaves.isSome = true := by
+                cases hcl' : sp.childrenLeaves with
+                | none => rw [hcl'] at hor; cases hor
+                | some y => rfl
+              have := hcsp this
+              rw [hpv] at this; cases this
+          rcases elideParentCounter_cases (storeElided sp) parent (countLeaves H (storeElided sp).page) clc hsp2 hcp with
+            ⟨parent2, hp2, hp2id, hp2pg, hp2c, hp2d⟩ | hpanic
+          · unfold elidePage
+            rw [hp2]
+            simp only
+            rw [hci]
+            simp only
+            rw [hrec]
+            simp only [Bool.false_eq_true, if_false]
+            have hc3 : CountersOK ({ parent2 with elided := PageLayout.elidedSet parent2.elided ci true } : StackPage Node) := hp2c
+            split
+            · exact Or.inl ⟨_, rfl, ⟨rfl, rfl, rfl, rfl, hrec.symm⟩, rfl, rfl, rfl,
+                pushUpdated_outs w _ sp _ rfl hid (storeElided_nodes sp) (by intro i hi; show ((storeElided sp).diff.setCleared).changed i = true; rw [PageDiff.changed_setCleared, storeElided_diff, hi]; rfl),
+                Or.inr ⟨parent, rest, _, rfl, rfl, hp2id, hp2pg, hc3, hp2d⟩⟩
+            · exact Or.inl ⟨_, rfl, ⟨rfl, rfl, rfl, rfl, hrec.symm⟩, rfl, rfl, rfl, fun o ho => Or.inl ho,
+                Or.inr ⟨parent, rest, _, rfl, rfl, hp2id, hp2pg, hc3, hp2d⟩⟩
+          · right
+            unfold elidePage
+            rw [hpanic]
         · obtain ⟨w', h1, h2, h3, h4, h5, ho, p', h6, h7, h8, h9, h10⟩ := hkeep
-          exact ⟨w', h1, h2, h3, h4, h5, ho, Or.inr ⟨parent, rest, p', rfl, h6, h7, h8, h9, h10⟩⟩
-
+          exact Or.inl ⟨w', h1, h2, h3, h4, h5, ho, Or.inr ⟨parent, rest, p', rfl, h6, h7, h8, h9, h10⟩⟩
 
 /-! ## the reconstructor (`new_reconstructor`): every page is handed out as reconstructed; nothing may be kept -/
-
-/-- the top page is small enough to be elided (what a reconstructor needs of every page it leaves: a kept page would wipe the
-parent's counters, and `push_reconstructed` of the parent would fail) -/
-def SmallTop (w : Walker Node) : Prop :=
-  ∀ sp parent rest, w.stack = sp :: parent :: rest → parentPageId sp.pageId ≠ [] →
-    countLeaves H sp.page + clOf sp < PAGE_ELISION_THRESHOLD
-
-theorem or_eq_clOf (x : StackPage Node) (h : x.prevChildrenLeaves = some 0) :
-    x.childrenLeaves.or x.prevChildrenLeaves = some (clOf x) := by
-  unfold clOf
-  rw [h]
-  cases x.childrenLeaves <;> rfl
-
-theorem pushReconstructed_zero (w : Walker Node) (sp : StackPage Node) (h : sp.prevChildrenLeaves = some 0) :
-    pushReconstructed w sp =
-      .ok { w with outputPages := w.outputPages ++ [.reconstructed sp.pageId sp.page (clOf sp) sp.totalDiff] } := by
-  unfold pushReconstructed clOf
-  rw [h]
-
-theorem pushOut_rec (w : Walker Node) (sp : StackPage Node) (hrec : w.reconstruction = true) :
-    pushOut w sp = pushReconstructed w sp := by
-  unfold pushOut; rw [if_pos hrec]
 
 theorem handleElision_spec_r (w : Walker Node) (sp : StackPage Node) (below : List (StackPage Node))
     (hst : w.stack = sp :: below) (hrec : w.reconstruction = true) (hinh : w.inhibitElision = false)
@@ -239,7 +189,7 @@ theorem handleElision_spec_r (w : Walker Node) (sp : StackPage Node) (below : Li
   | cons parent rest =>
     simp only
     have hzp := hz parent (by rw [hst]; simp)
-    have hcp : CountersOK parent := Or.inr hzp
+    have hcp : CountersOK parent := fun _ => by rw [hzp.1]; rfl
     have hspne : (storeElided sp).pageId ≠ [] := by rw [hid]; exact hne (by simp)
     obtain ⟨ci, hci⟩ := childIndexAtLevel_last (storeElided sp).pageId hspne
     by_cases hroot : parentPageId (storeElided sp).pageId = []
@@ -264,7 +214,8 @@ theorem handleElision_spec_r (w : Walker Node) (sp : StackPage Node) (below : Li
       rw [if_pos (by exact hrec)]
       rw [pushReconstructed_zero _ _ hz', hid, hclof]
       refine ⟨_, (storeElided sp).page, _, rfl, ⟨rfl, rfl, rfl, rfl, rfl⟩, rfl, rfl, rfl, storeElided_nodes sp, hdiffs, rfl,
-        Or.inr ⟨parent, rest, _, rfl, rfl, rfl, rfl, Or.inr ⟨hzp.1, hzp.2⟩, rfl, rfl, rfl, ?_⟩⟩
+        Or.inr ⟨parent, rest, _, rfl, rfl, rfl, rfl,
+          (fun _ => by show parent.prevChildrenLeaves.isSome = true; rw [hzp.1]; rfl), rfl, rfl, rfl, ?_⟩⟩
       show (some _ : Option Nat).getD 0 ≤ _
       simp only [Option.getD_some]
       omega
@@ -275,7 +226,7 @@ theorem handleElision_sum (w : Walker Node) (sp : StackPage Node) (below : List 
     (hrc : w.reconstruction = true → w.inhibitElision = false ∧
       ∀ x ∈ w.stack, x.prevChildrenLeaves = some 0 ∧ x.pageLeaves = some 0)
     (hsm : w.reconstruction = true → SmallTop H w) :
-    ∃ w', w.handleElision H = .ok w' ∧ Same w w' ∧ w'.position = w.position ∧ w'.root = w.root ∧
+    (∃ w', w.handleElision H = .ok w' ∧ Same w w' ∧ w'.position = w.position ∧ w'.root = w.root ∧
       w'.childPageRoots = w.childPageRoots ∧
       (∀ o ∈ w'.outputPages, o ∈ w.outputPages ∨
         (o.pageId = sp.pageId ∧ o.page.nodes = sp.page.nodes ∧ o.isReconstructed = w.reconstruction ∧
@@ -287,22 +238,24 @@ theorem handleElision_sum (w : Walker Node) (sp : StackPage Node) (below : List 
           (w.reconstruction = true → parent'.prevChildrenLeaves = parent.prevChildrenLeaves ∧
             parent'.pageLeaves = parent.pageLeaves ∧ clOf parent' ≤ clOf parent + countLeaves H sp.page + clOf sp))) ∧
       (w.reconstruction = true → ∃ o, w'.outputPages = w.outputPages ++ [o] ∧ o.pageId = sp.pageId ∧
-        o.page.nodes = sp.page.nodes) := by
+        o.page.nodes = sp.page.nodes)) ∨
+    (w.reconstruction = false ∧ w.handleElision H = .panic GUARD) := by
   cases hrec : w.reconstruction with
   | false =>
-    obtain ⟨w', h1, h2, h3, h4, h5, ho, hs'⟩ := handleElision_spec H w sp below hst hrec hc hne
-    refine ⟨w', h1, h2, h3, h4, h5, ?_, ?_, fun h => by cases h⟩
-    · intro o ho'
-      rcases ho o ho' with h | ⟨pg, d, b, e1, e2, e3⟩
-      · exact Or.inl h
-      · right; rw [e2]; exact ⟨rfl, e1, rfl, e3⟩
-    · rcases hs' with h | ⟨parent, rest, parent', e1, e2, e3, e4, e5, e6⟩
-      · exact Or.inl h
-      · exact Or.inr ⟨parent, rest, parent', e1, e2, e3, e4, e5, e6, fun h => by cases h⟩
+    rcases handleElision_spec H w sp below hst hrec hc hne with ⟨w', h1, h2, h3, h4, h5, ho, hs'⟩ | hp
+    · refine Or.inl ⟨w', h1, h2, h3, h4, h5, ?_, ?_, fun h => by cases h⟩
+      · intro o ho'
+        rcases ho o ho' with h | ⟨pg, d, b, e1, e2, e3⟩
+        · exact Or.inl h
+        · right; rw [e2]; exact ⟨rfl, e1, rfl, e3⟩
+      · rcases hs' with h | ⟨parent, rest, parent', e1, e2, e3, e4, e5, e6⟩
+        · exact Or.inl h
+        · exact Or.inr ⟨parent, rest, parent', e1, e2, e3, e4, e5, e6, fun h => by cases h⟩
+    · exact Or.inr ⟨rfl, hp⟩
   | true =>
     obtain ⟨hinh, hz⟩ := hrc hrec
     obtain ⟨w', pg, d, h1, h2, h3, h4, h5, hn, hd, ho, hs'⟩ := handleElision_spec_r H w sp below hst hrec hinh hz hne (hsm hrec)
-    refine ⟨w', h1, h2, h3, h4, h5, ?_, ?_, fun _ => ⟨_, ho, rfl, hn⟩⟩
+    refine Or.inl ⟨w', h1, h2, h3, h4, h5, ?_, ?_, fun _ => ⟨_, ho, rfl, hn⟩⟩
     · intro o ho'
       rw [ho, List.mem_append, List.mem_singleton] at ho'
       rcases ho' with h | h
@@ -314,31 +267,14 @@ theorem handleElision_sum (w : Walker Node) (sp : StackPage Node) (below : List 
 
 /-! ## pages of neighbouring positions -/
 
-theorem dip_snoc (x : Path) (b : Bool) : dip (x ++ [b]) = x.length % 6 + 1 := by
-  unfold dip specR
-  rw [if_neg (by simp)]
-  simp
-
-theorem specPage_dropLast_first_layer (x : Path) (b : Bool) (h6 : x.length % 6 = 0) :
-    (specPage (x ++ [b])).dropLast = specPage x := by
-  rw [specPage_snoc_boundary x b h6]
-  by_cases hx : x = []
-  · subst hx; rfl
-  · rw [sextetsOf_bottom x h6 hx, List.dropLast_concat]
-
-theorem specPage_first_layer_length (x : Path) (b : Bool) (h6 : x.length % 6 = 0) :
-    6 * (specPage (x ++ [b])).length = x.length := by
-  rw [specPage_length]
-  simp only [List.length_append, List.length_singleton, Nat.add_sub_cancel]
-  omega
-
 section
 variable (ps : PageSet Node)
 
 /-- `up`.  A reconstructor must find the page it leaves small enough to be elided (`hsm`). -/
 theorem sim_up {w : Walker Node} {a : TW Node} (h : Sim H ps w a) (hd : 6 * k0 w.parentPage < a.pos.length)
     (hsm : w.reconstruction = true → dip a.pos = 1 → SmallTop H w) :
-    ∃ w', w.up H = .ok w' ∧ Sim H ps w' a.up ∧ Same w w' ∧ w'.childPageRoots = w.childPageRoots ∧ w'.root = w.root := by
+    (∃ w', w.up H = .ok w' ∧ Sim H ps w' a.up ∧ Same w w' ∧ w'.childPageRoots = w.childPageRoots ∧ w'.root = w.root) ∨
+    (w.reconstruction = false ∧ w.up H = .panic GUARD) := by
   have hne := sim_pos_ne (w := w) hd
   obtain ⟨x, b, hxb⟩ : ∃ x b, a.pos = x ++ [b] := by
     rcases List.eq_nil_or_concat a.pos with e | ⟨l, y, e⟩
@@ -368,18 +304,22 @@ theorem sim_up {w : Walker Node} {a : TW Node} (h : Sim H ps w a) (hd : 6 * k0 w
     have hchain := h.chain
     rw [hst] at hchain
     simp only [List.map_cons] at hchain
-    obtain ⟨w1, hw1, hsame, hpos1, hroot1, hcpr1, houts1, hstack1, hrec1⟩ :=
-      handleElision_sum H w top below hst h.counters
+    have hsum := handleElision_sum H w top below hst h.counters
         (by
           intro hb
           cases below with
           | nil => exact absurd rfl hb
           | cons q r => exact hchain.1)
         h.recon.rc (fun hr => hsm hr h1)
+    rcases hsum with ⟨w1, hw1, hsame, hpos1, hroot1, hcpr1, houts1, hstack1, hrec1⟩ | ⟨hnr, hp⟩
+    case inr =>
+      right
+      refine ⟨hnr, ?_⟩
+      rw [hp]
     rw [hw1]
     simp only
     rw [hpos1, hup]
-    refine ⟨_, rfl, ?_, hsame, hcpr1, hroot1⟩
+    refine Or.inl ⟨_, rfl, ?_, hsame, hcpr1, hroot1⟩
     have htoplen := chain_top_length w.parentPage top.pageId (below.map (·.pageId)) hchain
     have hPl : 6 * top.pageId.length = x.length := by
       rw [htop, hxb]; exact specPage_first_layer_length x b h6
@@ -511,7 +451,7 @@ theorem sim_up {w : Walker Node} {a : TW Node} (h : Sim H ps w a) (hd : 6 * k0 w
     rw [hdip, if_neg h1]
     simp only
     rw [hup]
-    refine ⟨_, rfl, ?_, Same.rfl' _, rfl, rfl⟩
+    refine Or.inl ⟨_, rfl, ?_, Same.rfl' _, rfl, rfl⟩
     have h6 : x.length % 6 ≠ 0 := by
       rw [hxb, dip_snoc] at h1; omega
     have h6k : (6 * k0 w.parentPage) % 6 = 0 := by omega
@@ -572,7 +512,7 @@ theorem fresh_page_diffok (P : PageId) :
 
 theorem fresh_page_counters (P : PageId) (pg : Page Node) :
     CountersOK (StackPage.new P pg PageDiff.empty freshOrigin) := by
-  right; exact ⟨rfl, rfl⟩
+  intro _; rfl
 
 /-- one bit of `down` into fresh territory -/
 theorem sim_downBit (hfresh : ∀ P, (ps.fresh P).length = 126) {w : Walker Node} {a : TW Node} (h : Sim H ps w a)
@@ -736,4 +676,4 @@ theorem sim_downBit (hfresh : ∀ P, (ps.fresh P).length = 126) {w : Walker Node
 
 end
 
-end Nomt.Walker
+end Nomt.Walker.G
